@@ -234,6 +234,7 @@ CASES_HEADER = """From Coq Require Import List ZArith NArith String Bool.
 Import ListNotations.
 Require Import MTX.Lib.CaseRun MTX.Check.%(mod)s.
 Local Open Scope string_scope.
+Local Open Scope list_scope.
 Local Open Scope Z_scope.
 """
 
